@@ -15,6 +15,9 @@ structure CleanFile (d c : Char) (comments : List Char) (header body : List Stri
   stripped : ∀ s ∈ body, stripSp s = s ∧ s ≠ ""
   notblank : ∀ s ∈ body, strip s ≠ ""
   fields : ∀ s ∈ body, (splitAt d s).map strip = splitAt d s
+  /-- no quote character: `csv.reader` then splits a line at every delimiter, which is what `splitAt` does
+      (scope of the claim; not used by the proofs, which are about the model) -/
+  unquoted : ∀ s ∈ body, '"' ∉ s.toList
 
 theorem dataLines_clean (comments : List Char) (header body : List String)
     (hh : ∀ s ∈ header, comments.any (fun c => s.toList.head? = some c) = true)
